@@ -171,6 +171,7 @@ func c15TeeWriters(c *Ctx, px *c15Proxier) {
 // written, recorded) must be cut at the count ReadAtLeast returned; cutting it at a parsed message length instead
 // silently drops whatever followed the message in the same segment (a pipelined second query).
 func c15NoOverread(c *Ctx, px *c15Proxier) {
+
 	p := c.P
 	for _, fn := range px.reach {
 		for _, call := range Calls(fn) {
